@@ -1,5 +1,9 @@
 // c11: feeds heartbeat histories to a real topology.Topology through the same
-// calls that weed/server/master_grpc_server.go SendHeartbeat makes, and after
+// calls that weed/server/master_grpc_server.go SendHeartbeat makes (default mode), or
+// (--mode master, or "via": "master" in the reset line) to a REAL weed_server.MasterServer: every heartbeat goes through an
+// in-memory stream served by MasterServer.SendHeartbeat, lookups through
+// MasterServer.LookupVolume, picks also through MasterServer.Assign, and what a
+// KeepConnected client is told is recorded in the snapshot (fields bc, bc2). After
 // every step records what the master reports: ToTopologyInfo() at every level,
 // the usage counters and AvailableSpaceFor of every node of the tree, Lookup of
 // every known volume id and the writable lists of the volume layouts.
@@ -8,11 +12,13 @@
 package main
 
 import (
+	"context"
 	"flag"
 	"fmt"
 	"os"
 	"sort"
 	"strings"
+	"time"
 
 	"github.com/chrislusf/seaweedfs/weed/pb/master_pb"
 	"github.com/chrislusf/seaweedfs/weed/sequence"
@@ -22,6 +28,7 @@ import (
 	"github.com/chrislusf/seaweedfs/weed/storage/types"
 	"github.com/chrislusf/seaweedfs/weed/topology"
 
+	"verifharness/cluster"
 	"verifharness/tr"
 )
 
@@ -56,6 +63,18 @@ type world struct {
 	zomb  map[string]*topology.DataNode // streams the server has abandoned but the master still holds
 	vids  []uint32                      // every id that is looked up after each step
 	pickDcs []string                    // data center wishes tried with PickForWrite after each step ("" = none)
+
+	// --mode master: the topology above is the one of a real master server
+	rm     *cluster.RealMaster
+	hs     map[string]*cluster.HBStream // open heartbeat streams
+	hz     map[string]*cluster.HBStream // abandoned streams the master still serves
+	ips    map[string]string            // node name -> ip the node reports
+	byIP   map[string]string            // and back
+	cl     *cluster.ClientStream        // a KeepConnected client connected before the first heartbeat
+	cl2    *cluster.ClientStream        // a second one that connects in the middle of the execution
+	cl2At  int                          // ... after this many steps
+	nsteps int
+	fail   string // an observation that ends the execution: "timeout: ..." | "returned: ..."
 }
 
 func rec(v interface{}) tr.Ev {
@@ -63,14 +82,34 @@ func rec(v interface{}) tr.Ev {
 	return m
 }
 
-func newWorld(r tr.Ev) *world {
+func newWorld(r tr.Ev, master bool, nops int) *world {
 	w := &world{nodes: map[string]nodeStatic{}, vols: map[uint32]volStatic{}, ecs: map[uint32]ecStatic{},
 		sess: map[string]*topology.DataNode{}, zomb: map[string]*topology.DataNode{}}
-	w.limit = uint64(tr.I(r, "limit"))
-	w.topo = topology.NewTopology("topo", sequence.NewMemorySequencer(), w.limit, 5, tr.B(r, "min"))
-	for _, x := range tr.List(r["nodes"]) {
+	if master {
+		// the size limit of a master is a whole number of MB: sizes are expressed relative to it
+		w.rm = cluster.NewRealMaster(cluster.RealMasterOptions{VolumeSizeLimitMB: 1, ReplicationAsMin: tr.B(r, "min")})
+		w.topo = w.rm.MS.Topo
+		w.limit = w.rm.Limit
+		w.hs, w.hz = map[string]*cluster.HBStream{}, map[string]*cluster.HBStream{}
+		w.ips, w.byIP = map[string]string{}, map[string]string{}
+		w.cl2At = nops / 2
+		var ok bool
+		if w.cl, ok = w.rm.OpenClient("client", "127.0.0.9", 0); !ok {
+			w.fail = "timeout: KeepConnected did not register the client"
+		}
+	} else {
+		w.limit = uint64(tr.I(r, "limit"))
+		w.topo = topology.NewTopology("topo", sequence.NewMemorySequencer(), w.limit, 5, tr.B(r, "min"))
+	}
+	for i, x := range tr.List(r["nodes"]) {
 		n := rec(x)
 		w.nodes[tr.S(n, "id")] = nodeStatic{tr.S(n, "dc"), tr.S(n, "rack")}
+		if master {
+			// loopback addresses nobody listens on: if the master ever dials a volume server it fails at once
+			ip := fmt.Sprintf("127.0.1.%d", i+1)
+			w.ips[tr.S(n, "id")] = ip
+			w.byIP[ip] = tr.S(n, "id")
+		}
 	}
 	seen := map[uint32]bool{}
 	for _, x := range tr.List(r["vols"]) {
@@ -104,6 +143,15 @@ func newWorld(r tr.Ev) *world {
 // receive is the body of MasterServer.SendHeartbeat's loop for one message of
 // the stream of node `name` (the broadcast to clients and the reply are left out).
 func (w *world) receive(name string, hb *master_pb.Heartbeat) {
+	if w.rm != nil {
+		s := w.hs[name]
+		if s == nil {
+			s = w.rm.OpenHeartbeat(w.ips[name], 50000)
+			w.hs[name] = s
+		}
+		w.ended("SendHeartbeat("+name+")", s, s.Push(hb), false)
+		return
+	}
 	t := w.topo
 	t.Sequence.SetMax(hb.MaxFileKey)
 	dn := w.sess[name]
@@ -129,8 +177,28 @@ func (w *world) receive(name string, hb *master_pb.Heartbeat) {
 	}
 }
 
+// ended turns the way a push / close on a real master's stream ended into an observation
+func (w *world) ended(what string, s *cluster.HBStream, res string, closing bool) {
+	switch {
+	case res == "ok" && !closing, res == "returned" && closing:
+	case res == "panic":
+		panic(s.Panic)
+	case res == "timeout":
+		w.fail = "timeout: " + what
+	default:
+		w.fail = fmt.Sprintf("returned: %s: handler returned %v", what, s.Err)
+	}
+}
+
 // closeStream is the deferred part of SendHeartbeat: the stream of the node broke.
 func (w *world) closeStream(name string) {
+	if w.rm != nil {
+		if s := w.hs[name]; s != nil {
+			delete(w.hs, name)
+			w.ended("close("+name+")", s, s.Close(), true)
+		}
+		return
+	}
 	if dn := w.sess[name]; dn != nil {
 		w.topo.UnRegisterDataNode(dn)
 		delete(w.sess, name)
@@ -167,18 +235,23 @@ func (w *world) step(e tr.Ev) {
 	name := tr.S(e, "n")
 	switch tr.S(e, "ev") {
 	case "reopen": // the server dials again and sends its first full heartbeat while the master still serves the old stream
-		if w.sess[name] == nil || w.zomb[name] != nil {
+		if !w.open(name) || w.zombie(name) {
 			fatal("reopen needs one open stream (%s)", name)
 		}
-		w.zomb[name] = w.sess[name]
-		delete(w.sess, name)
+		if w.rm != nil {
+			w.hz[name] = w.hs[name]
+			delete(w.hs, name)
+		} else {
+			w.zomb[name] = w.sess[name]
+			delete(w.sess, name)
+		}
 		fallthrough
 	case "full": // a full volume heartbeat (Store.CollectHeartbeat); opens the stream if need be
 		ns, ok := w.nodes[name]
 		if !ok {
 			fatal("unknown node %q", name)
 		}
-		hb := &master_pb.Heartbeat{Ip: name, Port: port, PublicUrl: name, DataCenter: ns.dc, Rack: ns.rack,
+		hb := &master_pb.Heartbeat{Ip: w.ip(name), Port: port, PublicUrl: name, DataCenter: ns.dc, Rack: ns.rack,
 			MaxVolumeCounts: map[string]uint32{}, MaxFileKey: uint64(tr.I(e, "mfk"))}
 		for _, x := range tr.List(e["max"]) {
 			p := tr.List(x)
@@ -207,7 +280,7 @@ func (w *world) step(e tr.Ev) {
 		hb.HasNoVolumes = len(hb.Volumes) == 0
 		w.receive(name, hb)
 	case "inc": // delta heartbeat: new / deleted volumes in short form
-		if w.sess[name] == nil {
+		if !w.open(name) {
 			fatal("inc on a closed stream (%s)", name)
 		}
 		hb := &master_pb.Heartbeat{}
@@ -219,26 +292,49 @@ func (w *world) step(e tr.Ev) {
 		}
 		w.receive(name, hb)
 	case "ecfull": // Store.CollectErasureCodingHeartbeat
-		if w.sess[name] == nil {
+		if !w.open(name) {
 			fatal("ecfull on a closed stream (%s)", name)
 		}
 		hb := &master_pb.Heartbeat{EcShards: w.ecMsgs(e["ecs"])}
 		hb.HasNoEcShards = len(hb.EcShards) == 0
 		w.receive(name, hb)
 	case "ecinc":
-		if w.sess[name] == nil {
+		if !w.open(name) {
 			fatal("ecinc on a closed stream (%s)", name)
 		}
 		w.receive(name, &master_pb.Heartbeat{NewEcShards: w.ecMsgs(e["newec"]), DeletedEcShards: w.ecMsgs(e["delec"])})
 	case "close":
 		w.closeStream(name)
 	case "zclose": // the handler of the abandoned stream returns: its deferred UnRegisterDataNode
-		if w.zomb[name] == nil {
+		if !w.zombie(name) {
 			fatal("zclose without an abandoned stream (%s)", name)
 		}
-		w.topo.UnRegisterDataNode(w.zomb[name])
-		delete(w.zomb, name)
+		if w.rm != nil {
+			s := w.hz[name]
+			delete(w.hz, name)
+			w.ended("zclose("+name+")", s, s.Close(), true)
+		} else {
+			w.topo.UnRegisterDataNode(w.zomb[name])
+			delete(w.zomb, name)
+		}
 	case "collect": // what CollectDeadNodeAndFullVolumes + the chanFullVolumes consumer do for full volumes
+		if w.rm != nil {
+			// the master's real size check. It hands every full volume over an unbuffered channel to the consumer
+			// goroutine the master started. Second round: its first hand-over is accepted only when the consumer has
+			// finished the first round's last volume, and the second round itself changes nothing (idempotent).
+			pan, late := tr.GuardT(cluster.StepDeadline, func() {
+				for i := 0; i < 2; i++ {
+					w.topo.CollectDeadNodeAndFullVolumes(time.Now().Unix()-15, w.limit, 0.9)
+				}
+			})
+			if pan != "" {
+				panic(pan)
+			}
+			if late {
+				w.fail = "timeout: CollectDeadNodeAndFullVolumes"
+			}
+			break
+		}
 		for _, dc := range w.topo.Children() {
 			for _, rack := range dc.Children() {
 				for _, c := range rack.Children() {
@@ -256,6 +352,28 @@ func (w *world) step(e tr.Ev) {
 	}
 }
 
+func (w *world) open(name string) bool {
+	if w.rm != nil {
+		return w.hs[name] != nil
+	}
+	return w.sess[name] != nil
+}
+
+func (w *world) zombie(name string) bool {
+	if w.rm != nil {
+		return w.hz[name] != nil
+	}
+	return w.zomb[name] != nil
+}
+
+// ip: what the node reports as its address (its name, or a loopback address in master mode)
+func (w *world) ip(name string) string {
+	if w.rm != nil {
+		return w.ips[name]
+	}
+	return name
+}
+
 func clamp(v int64) int {
 	const lim = 1000000
 	if v > lim {
@@ -267,9 +385,15 @@ func clamp(v int64) int {
 	return int(v)
 }
 
-func nodeName(id string) string {
+// nodeName: a data node id / url (ip:port) -> the node's name in the script
+func (w *world) nodeName(id string) string {
 	if i := strings.LastIndex(id, ":"); i >= 0 {
-		return id[:i]
+		id = id[:i]
+	}
+	if w.rm != nil {
+		if n, ok := w.byIP[id]; ok {
+			return n
+		}
 	}
 	return id
 }
@@ -310,7 +434,7 @@ func (w *world) snap() tr.Ev {
 			levels = append(levels, lvl{k: "rack", dc: dci.Id, rack: ri.Id, node: obj[dci.Id+"/"+ri.Id], info: ri.DiskInfos})
 			sort.Slice(ri.DataNodeInfos, func(i, j int) bool { return ri.DataNodeInfos[i].Id < ri.DataNodeInfos[j].Id })
 			for _, dni := range ri.DataNodeInfos {
-				nn := nodeName(dni.Id)
+				nn := w.nodeName(dni.Id)
 				tree = append(tree, tr.Ev{"n": nn, "dc": dci.Id, "rack": ri.Id})
 				levels = append(levels, lvl{k: "node", dc: dci.Id, rack: ri.Id, n: nn, node: obj["@"+dni.Id]})
 				var dks []string
@@ -372,9 +496,19 @@ func (w *world) snap() tr.Ev {
 	}
 	look := []interface{}{}
 	for _, id := range w.vids {
+		if w.rm != nil {
+			// the master's own answers: by volume id, and by a file id together with the volume's collection
+			col := w.vols[id].col
+			if _, ok := w.vols[id]; !ok {
+				col = w.ecs[id].col
+			}
+			look = append(look, tr.Ev{"id": int(id), "ns": w.lookup(fmt.Sprint(id), "")},
+				tr.Ev{"id": int(id), "ns": w.lookup(fmt.Sprintf("%d,01637037d6", id), col)})
+			continue
+		}
 		ns := []string{}
 		for _, dn := range t.Lookup("", needle.VolumeId(id)) {
-			ns = append(ns, nodeName(string(dn.Id())))
+			ns = append(ns, w.nodeName(string(dn.Id())))
 		}
 		sort.Strings(ns)
 		look = append(look, tr.Ev{"id": int(id), "ns": ns})
@@ -398,7 +532,61 @@ func (w *world) snap() tr.Ev {
 	if pp {
 		picks = []interface{}{}
 	}
-	return tr.Ev{"ev": "snap", "tree": tree, "lv": lv, "vols": vols, "ecs": ecs, "look": look, "wr": wr, "picks": picks, "pp": pp}
+	res := tr.Ev{"ev": "snap", "tree": tree, "lv": lv, "vols": vols, "ecs": ecs, "look": look, "wr": wr, "picks": picks, "pp": pp}
+	if w.rm != nil {
+		res["bc"], res["bc2on"], res["bc2"] = w.broadcasts()
+	}
+	return res
+}
+
+// lookup asks the real master (LookupVolume) and maps the urls back to node names
+func (w *world) lookup(vid, collection string) []string {
+	ns := []string{}
+	resp, err := w.rm.MS.LookupVolume(context.Background(), &master_pb.LookupVolumeRequest{VolumeIds: []string{vid}, Collection: collection})
+	if err != nil {
+		panic("LookupVolume: " + err.Error())
+	}
+	for _, l := range resp.VolumeIdLocations {
+		for _, loc := range l.Locations {
+			ns = append(ns, w.nodeName(loc.Url))
+		}
+	}
+	sort.Strings(ns)
+	return ns
+}
+
+func (w *world) msgs(c *cluster.ClientStream) []interface{} {
+	res := []interface{}{}
+	for _, m := range c.Take() {
+		nv, dv := []int{}, []int{}
+		for _, v := range m.NewVids {
+			nv = append(nv, int(v))
+		}
+		for _, v := range m.DeletedVids {
+			dv = append(dv, int(v))
+		}
+		res = append(res, tr.Ev{"n": w.nodeName(m.Url), "pub": m.PublicUrl, "dc": m.DataCenter, "leader": m.Leader, "newv": nv, "delv": dv})
+	}
+	return res
+}
+
+// broadcasts: what the KeepConnected clients were sent since the previous snapshot, in order. The second
+// client connects after half of the steps; its first batch is the master's full list of locations.
+func (w *world) broadcasts() (bc []interface{}, on bool, bc2 []interface{}) {
+	w.nsteps++
+	if w.cl2 == nil && w.nsteps > w.cl2At {
+		var ok bool
+		if w.cl2, ok = w.rm.OpenClient("late", "127.0.0.8", 18888); !ok {
+			w.fail = "timeout: KeepConnected did not register the second client"
+		}
+	} else if !w.rm.Sync() {
+		w.fail = "timeout: a KeepConnected client did not receive what was queued for it"
+	}
+	bc2 = []interface{}{}
+	if w.cl2 != nil {
+		on, bc2 = true, w.msgs(w.cl2)
+	}
+	return w.msgs(w.cl), on, bc2
 }
 
 // picks asks the master for a volume to write to (Topology.PickForWrite), once per volume class of the
@@ -433,12 +621,43 @@ func (w *world) picks() []interface{} {
 					fatal("PickForWrite returned an unparsable file id %q", fid)
 				}
 				e["vid"] = int(f.VolumeId)
-				e["node"] = nodeName(string(dn.Id()))
+				e["node"] = w.nodeName(string(dn.Id()))
 			}
 			res = append(res, e)
+			if err == nil && w.rm != nil {
+				res = append(res, w.assign(int(id), v, dc))
+			}
 		}
 	}
 	return res
+}
+
+// assign: the same request through the real master's Assign (only asked when a direct pick just succeeded:
+// Assign polls for 10 s when nothing is writable)
+func (w *world) assign(cls int, v volStatic, dc string) tr.Ev {
+	e := tr.Ev{"cls": cls, "dc": dc, "err": true, "vid": 0, "node": ""}
+	var resp *master_pb.AssignResponse
+	var err error
+	pan, late := tr.GuardT(15*time.Second, func() {
+		resp, err = w.rm.MS.Assign(context.Background(), &master_pb.AssignRequest{Count: 1, Replication: v.rp.String(),
+			Collection: v.col, Ttl: needle.LoadTTLFromUint32(v.ttl).String(), DataCenter: dc, DiskType: v.disk})
+	})
+	if pan != "" {
+		panic(pan)
+	}
+	if late {
+		w.fail = "timeout: Assign"
+		return e
+	}
+	if err != nil || resp.Error != "" {
+		return e
+	}
+	f, perr := needle.ParseFileIdFromString(resp.Fid)
+	if perr != nil {
+		fatal("Assign returned an unparsable file id %q", resp.Fid)
+	}
+	e["err"], e["vid"], e["node"] = false, int(f.VolumeId), w.nodeName(resp.Url)
+	return e
 }
 
 var realStderr = os.Stderr
@@ -460,15 +679,21 @@ func main() {
 	}
 	for _, ex := range script {
 		var w *world
-		w = newWorld(ex[0])
+		w = newWorld(ex[0], o.Mode == "master" || tr.S(ex[0], "via") == "master", len(ex)-1)
 		out.Emit(ex[0])
 		for _, e := range ex[1:] {
+			if w.fail != "" {
+				break
+			}
 			k := tr.S(e, "ev")
 			if k == "snap" || k == "panic" {
 				continue
 			}
 			if pan := tr.Guard(func() { w.step(e) }); pan != "" {
 				out.Emit(tr.Ev{"ev": "panic", "op": e, "msg": pan})
+				break
+			}
+			if w.fail != "" {
 				break
 			}
 			out.Emit(e)
@@ -478,6 +703,13 @@ func main() {
 				break
 			}
 			out.Emit(s)
+		}
+		if w.fail != "" {
+			// a handler that did not answer or gave up: an observation no specification admits
+			out.Emit(tr.Ev{"ev": strings.SplitN(w.fail, ":", 2)[0], "msg": w.fail})
+		}
+		if w.rm != nil {
+			w.rm.Close()
 		}
 	}
 }
